@@ -146,6 +146,10 @@ func DecodeSenc(hdr BoxHeader, startPos uint64, r io.Reader) (Box, error) {
 
 	if senc.SampleCount == 0 || len(senc.rawData) == 0 {
 		senc.readButNotParsed = false
+		if senc.SampleCount == 0 {
+			// No sample data will be written, so the size must be calculated and not taken from the header
+			senc.readBoxSize = 0
+		}
 		return &senc, nil
 	}
 	return &senc, nil
@@ -182,6 +186,10 @@ func DecodeSencSR(hdr BoxHeader, startPos uint64, sr bits.SliceReader) (Box, err
 
 	if senc.SampleCount == 0 || len(senc.rawData) == 0 {
 		senc.readButNotParsed = false
+		if senc.SampleCount == 0 {
+			// No sample data will be written, so the size must be calculated and not taken from the header
+			senc.readBoxSize = 0
+		}
 		return &senc, sr.AccError()
 	}
 	return &senc, sr.AccError()
